@@ -210,6 +210,11 @@ def build(rng, options, places, wd, tag, conflicts=None, all_opts=()):
             parts = [p for p in parts if p not in shorts and p is not tail]
             parts.insert(min(at, len(parts)), merged)
     argv = [t for p in parts for t in p]
+    if cfg and rng.random() < 0.5:
+        # a config file may also say that a flag is OFF: the same as not mentioning it
+        for flag in sorted(FLAGS):
+            if flag not in options and rng.random() < 0.5:
+                cfg.append((flag, rng.choice(["false", "no", "0", "False", "NO"])))
     if cfg:
         # the config file is not always in the current directory; relative paths in it still mean what they mean on the command line
         cdir = wd if rng.random() < 0.6 else os.path.join(wd, rng.choice(["settings", "etc/netconan"]))
